@@ -1,0 +1,42 @@
+//go:build verif
+
+package ed25519
+
+import "com.tuntun.rangers/node/src/common/ed25519/edwards25519"
+
+// verif hook H5: exports of the VRF's internal primitives, used by the
+// verification harness only (it plays an adversarial prover against
+// ECVRFVerify). Nothing here changes behaviour.
+
+// VerifHashToCurve is hashToCurve: the encoded point H = hash_to_curve(pk, m).
+func VerifHashToCurve(m []byte, pk PublicKey) [32]byte {
+	return hashToCurve(m, pk)
+}
+
+// VerifExpandSecret is expandSecret: the secret scalar x and the truncated
+// hashed secret used for nonce generation.
+func VerifExpandSecret(sk PrivateKey) (x *[32]byte, truncatedHashedSK *[32]byte) {
+	return expandSecret(sk)
+}
+
+// VerifHashPoints is hashPoints: the 16-byte challenge over four points.
+func VerifHashPoints(p1, p2, p3, p4 edwards25519.ExtendedGroupElement) [16]byte {
+	return hashPoints(p1, p2, p3, p4)
+}
+
+// VerifNonceGeneration is vrfNonceGeneration.
+func VerifNonceGeneration(truncatedHashedSK [32]byte, h [32]byte) *[32]byte {
+	return vrfNonceGeneration(truncatedHashedSK, h)
+}
+
+// VerifDecodeProof is decodeProof on a proof padded the way ECVRFVerify pads it.
+func VerifDecodeProof(pi []byte) (gamma *edwards25519.ExtendedGroupElement, c *[N2]byte, s *[N2 * 2]byte, err error) {
+	return decodeProof(tryZeroPadding(pi))
+}
+
+// VerifStringToPoint is stringToPoint (point decoding as the VRF does it).
+func VerifStringToPoint(s [32]byte) (*edwards25519.ExtendedGroupElement, bool) {
+	p := new(edwards25519.ExtendedGroupElement)
+	ok := stringToPoint(p, s)
+	return p, ok
+}
